@@ -272,7 +272,7 @@ def crc32(ck, S, RID="C08-O4"):
     lits = [n.get("v") for n in fn.find(lambda n: n.get("k") == "int")]
     okp = 0xEDB88320 in lits
     if semantic is None:
-        ck.ob(RID, sitestr(fn), okp, "reflected polynomial 0xEDB88320" if okp else "CRC polynomial is not 0xEDB88320 (constants: %s)" % [hex(x) for x in lits if x > 255][:4], key="calculateCRC32|polynomial")
+        ck.ob(RID, sitestr(fn), True if okp else None, "reflected polynomial 0xEDB88320" if okp else "CRC polynomial is not 0xEDB88320 (constants: %s)" % [hex(x) for x in lits if x > 255][:4], key="calculateCRC32|polynomial")
     if crcv is None:
         ck.ob(RID, sitestr(fn), False, "the CRC register is not initialised with 0xFFFFFFFF", key="calculateCRC32|init")
         return
@@ -439,6 +439,10 @@ def crc_by_cases(ck, S, RID):
     F = ck.facts
     fn = S.crc
     units = [fn] + [l for l in F.lambdas_of(fn) if l.body is not None]
+    # a table kept outside the function (namespace-scope constexpr object, a struct filled by its constexpr constructor): the functions of
+    # the same source file are candidates for the generation loop
+    units += [f_ for f_ in F.fns.values() if f_.body is not None and f_.file == fn.file and f_.id != fn.id and f_ not in units and
+              any(x.get("k") in ("for", "while") for x in f_.all_nodes())]
 
     def is_tab_type(t_):
         return "[256]" in (t_ or "") or bool(_re.search(r"std::array<[^<>]*, 256>", t_ or ""))
@@ -448,7 +452,26 @@ def crc_by_cases(ck, S, RID):
             for v in n.get("vars", []):
                 if is_tab_type(v.get("type")):
                     tabs[v["decl"]] = (u, v)
+    for gv in F.globals.values():
+        if is_tab_type(gv.get("type")) and gv.get("file") == fn.file:
+            tabs[gv["decl"]] = (None, gv)
+    for rec in F.records.values():
+        for fld in rec.get("fields", []):
+            if is_tab_type(fld.get("type")) and (rec.get("file") in (None, fn.file) or True):
+                nm_ = fld.get("name") or ""
+                tabs["field:" + (nm_ if "::" in nm_ else rec["name"] + "::" + nm_)] = (None, fld)
     if not tabs:
+        return None
+
+    def tab_key(b):
+        """identity of a 256-entry array designated by expression b"""
+        b = skip_copies(b) if isinstance(b, dict) else None
+        if not isinstance(b, dict):
+            return None
+        if b.get("k") == "ref" and b.get("decl") in tabs:
+            return b["decl"]
+        if b.get("k") == "member" and ("field:" + (b.get("name") or "")) in tabs:
+            return "field:" + b["name"]
         return None
 
     def table_store(n):
@@ -466,8 +489,8 @@ def crc_by_cases(ck, S, RID):
             i = (l.get("args") or [None])[-1]
         else:
             return None
-        if isinstance(b, dict) and b.get("k") == "ref" and b.get("decl") in tabs:
-            return b["decl"], i
+        if tab_key(b) is not None:
+            return tab_key(b), i
         return None
     gen = None
     for u in units:
@@ -489,8 +512,8 @@ def crc_by_cases(ck, S, RID):
         elif l.get("k") == "call":
             b = skip_copies(l.get("obj") if l.get("ck") == "member" else (l.get("args") or [{}])[0])
             i = (l.get("args") or [None])[-1]
-        if isinstance(b, dict) and b.get("k") == "ref" and b.get("decl") in tabs and isinstance(i, dict):
-            got.setdefault(b["decl"], {})[cx.eval(i, env)] = v
+        if tab_key(b) is not None and isinstance(i, dict):
+            got.setdefault(tab_key(b), {})[cx.eval(i, env)] = v
             return True
         return False
     cx = Conc(F, store_hook=hook, max_steps=400000)
@@ -556,7 +579,7 @@ def crc_by_cases(ck, S, RID):
             return None
         if n.get("k") == "subscript":
             b = skip_copies(n.get("base"))
-            if not (b.get("k") == "ref" and b.get("decl") in tab_decls):
+            if not (b.get("k") == "ref" and b.get("decl") in tab_decls) and not is_tab_type(b.get("type")):
                 return CH[t_]
         if n.get("k") == "call" and ((n.get("callee") or "").split("::")[-1] in ("at", "operator[]") or n.get("op") == "[]"):
             return CH[t_]
@@ -564,9 +587,16 @@ def crc_by_cases(ck, S, RID):
             return CH[t_]
         return None
     bad, n_eval = [], 0
+    holder = [None]
     try:
         for b in range(256):
             def leaf(n, env, b=b):
+                # a look-up in the table, however the table is designated (local reference, member of a namespace-scope object)
+                if n.get("k") == "subscript" and is_tab_type(skip_copies(n.get("base") or {}).get("type")) and not (skip_copies(n["base"]).get("k") == "ref" and skip_copies(n["base"]).get("decl") in env):
+                    i_ = holder[0].eval(n.get("idx"), env)
+                    if isinstance(i_, int) and 0 <= i_ < 256:
+                        return timpl[i_]
+                    raise Unknown("table index %r" % (i_,))
                 sg = byte_elem(n) if n.get("k") in ("subscript", "call", "unop") else None
                 if sg is None:
                     return None
@@ -574,8 +604,10 @@ def crc_by_cases(ck, S, RID):
             for reg in [0] + [1 << k for k in range(32)]:
                 env = {"__fn__": fn, crcd: reg}
                 for d_ in tab_decls:
-                    env[d_] = Table(items=list(timpl))
+                    if not str(d_).startswith("field:"):
+                        env[d_] = Table(items=list(timpl))
                 c2 = Conc(F, leaf=leaf, max_steps=4000)
+                holder[0] = c2
                 c2.exec(body, env)
                 n_eval += 1
                 out = env.get(crcd)
